@@ -1112,6 +1112,10 @@ func parseLinkDestination(r *inlineByteReader) linkDestination {
 				break
 			}
 		}
+		if parenCount > 0 {
+			// Parentheses must be escaped or part of a balanced pair.
+			return linkDestination{span: NullSpan(), text: NullSpan()}
+		}
 		span := Span{Start: start, End: r.pos}
 		return linkDestination{span: span, text: span}
 	default:
